@@ -4,6 +4,7 @@
    in-Coq vm_compute evaluation. *)
 From Lungo.Model Require Import Compare.
 From Lungo.Model Require Import EngineRun.
+From Lungo.Model Require Import SerialRun.
 Open Scope string_scope.
 
 Definition bad : string := "BAD-CASE".
@@ -27,6 +28,7 @@ Definition run_cmp (x : sexp) : option string :=
 Definition runners : list (sexp -> option string) :=
   [ run_cmp
   ; run_engine
+  ; run_serial
   ].
 
 Fixpoint first_some (rs : list (sexp -> option string)) (x : sexp) : string :=
